@@ -99,10 +99,10 @@ def polyeval(terms, z):
     return out
 
 
-def make_pinn(fields, eq_type, E=None, input_transform=None, output_transform=None, slice_solution=None):
+def make_pinn(fields, eq_type, E=None, input_transform=None, output_transform=None, slice_solution=None, output_slice=None):
     import jax.numpy as jnp
     from jinns.utils._pinn import PINN
 
     return PINN(mlp=make_polymlp(fields, E), slice_solution=jnp.s_[:] if slice_solution is None else slice_solution,
                 eq_type=eq_type, input_transform=input_transform or (lambda i, p: i),
-                output_transform=output_transform or (lambda i, o, p: o))
+                output_transform=output_transform or (lambda i, o, p: o), output_slice=output_slice)
